@@ -214,6 +214,18 @@ def run(ctx: Ctx, env):
                 return ci.module, fn, [ObjV(vq, {}, "self"), NodeV("node", {kind})], {}, ci.qual
 
             paths = interp.explore(setup)
+            # visit() re-enters itself through the handlers: whatever it keeps on the instance (a depth counter, a flag) has any value
+            # at a nested entry, so the same obligations hold with those attributes unknown
+            stored = sorted({ev.data["attr"] for x in paths for ev in x.events if ev.kind == "store_attr" and ev.data.get("obj") == "self"})
+            if stored:
+                interp2 = Interp(repo, schema, kenv)
+                interp2.inline_visit = True  # type: ignore[attr-defined]
+                interp2.stub_methods = interp.stub_methods
+
+                def setup2(it, kind=kind, vq=vq, stored=stored):
+                    return ci.module, fn, [ObjV(vq, {a: Sym("state", a, hint="int") for a in stored}, "self"), NodeV("node", {kind})], {}, ci.qual
+
+                paths = paths + interp2.explore(setup2)
             want = repo.lookup_method(vq, "visit_" + kind)
             want_name = ("visit_" + kind) if want else "generic_visit"
             key = f"{vq.rsplit('.', 1)[-1]}|{kind}"
